@@ -1,0 +1,78 @@
+//! Verification accessors on the vm (cargo feature `verif`)
+use super::Vm;
+use crate::{
+  source::Source,
+  verif::{dump_fun, CompileDump},
+};
+use codespan_reporting::term::{self, Config};
+use laythe_core::{constants::SELF, verif::HeapStats};
+use std::path::PathBuf;
+
+impl Vm {
+  /// Compile the provided source the way `run` (or one `repl` entry) would but do not
+  /// execute it. Diagnostics are written to stderr exactly as `interpret` does.
+  pub fn verif_compile_dump(
+    &mut self,
+    module_path: PathBuf,
+    source_content: &str,
+    repl: bool,
+  ) -> Option<CompileDump> {
+    let module_path = self.io.fs().canonicalize(&module_path).ok()?;
+    let mut directory = module_path.clone();
+    directory.pop();
+    self.root_dir = directory;
+
+    let source_content = self.manage_str(source_content);
+    self.push_root(source_content);
+    let source = Source::new(source_content);
+
+    let managed_path = self.manage_str(module_path.to_string_lossy());
+    self.push_root(managed_path);
+    let file_id = self.files.upsert(managed_path, source_content);
+    self.pop_roots(2);
+
+    let main_module = self.module(SELF, &managed_path);
+
+    match self.compile(repl, main_module, &source, file_id) {
+      Ok(fun) => {
+        self.push_root(fun);
+        let funs = dump_fun(fun);
+        self.pop_roots(1);
+
+        let cache = &self.inline_cache[main_module.id()];
+        Some(CompileDump {
+          funs,
+          property_slots: cache.verif_property_len(),
+          invoke_slots: cache.verif_invoke_len(),
+        })
+      },
+      Err(errors) => {
+        let mut stdio = self.io.stdio();
+        let stderr_color = stdio.stderr_color();
+        for error in errors.iter() {
+          term::emit(stderr_color, &Config::default(), &self.files, error)
+            .expect("Unable to write to stderr");
+        }
+        None
+      },
+    }
+  }
+
+  /// Run a collection over both generations right now
+  pub fn verif_full_collect(&mut self) {
+    let (schedule_full, _) = (laythe_core::verif::force_full(), ());
+    laythe_core::verif::set_force_full(true);
+    self.gc.borrow_mut().collect_garbage(self);
+    laythe_core::verif::set_force_full(schedule_full);
+  }
+
+  /// Run a collection with the allocators own choice of generation
+  pub fn verif_collect(&mut self) {
+    self.gc.borrow_mut().collect_garbage(self);
+  }
+
+  /// Statistics about the heap
+  pub fn verif_stats(&self) -> HeapStats {
+    self.gc.borrow().verif_stats()
+  }
+}
